@@ -12,7 +12,7 @@
 """
 import random
 
-from ..asmcore import explore, replay_all, kinds_of
+from ..asmcore import explore, explore_replay, replay_all, kinds_of
 from ..common import MachineryError
 from ..drive import asm, mods, pmap
 from .. import corpus
@@ -153,12 +153,12 @@ def main(run):
                 "image; (2) chains from Chain.tla (additive to depth 300, non-linear to depth 30) x {forward, backward, shuffled} x 7 use "
                 "positions; (3) corpus definitions moved to random positions; non-trivial = accepted program with >= 2 constant "
                 "definitions and at least one use, chain case, or performed corpus move")
-    recs, inc = explore(run, "OrderAlphabet", "LayoutIncFiles", 4 if thorough else 3, 1, [512], extra=("moves",),
-                        label="AsmCore order, 1 file (exhaustive, with MoveInvariant)", timeout=3000)
-    tasks = replay_all(run, recs, inc, {"harness_link": True}, nontrivial)
-    recs4, inc4 = explore(run, "OrderCoreAlphabet", "LayoutIncFiles", 5 if thorough else 4, 1, [512],
-                          label=f"AsmCore order core, all programs of <= {5 if thorough else 4} statements", timeout=3000)
-    tasks += replay_all(run, recs4, inc4, {"harness_link": True}, nontrivial)
+    tasks, inc = explore_replay(run, "OrderAlphabet", "LayoutIncFiles", 3, 1, [512], {"harness_link": True}, nontrivial, extra=("moves",),
+                                label="AsmCore order, 1 file x 3 stmts (exhaustive, with MoveInvariant)", timeout=3000)
+    t4, _ = explore_replay(run, "OrderCoreAlphabet", "LayoutIncFiles", 5 if thorough else 4, 1, [512], {"harness_link": True}, nontrivial,
+                           extra=(("moves",) if thorough else ()),
+                           label=f"AsmCore order core, all programs of <= {5 if thorough else 4} statements", timeout=6000)
+    tasks += t4
     recs2, inc2 = explore(run, "OrderAlphabet", "LayoutIncFiles", 7, 1, [512], simulate=(6000 if thorough else 700), depth=8,
                           seed=run.seed + 13, label="AsmCore order simulation (<= 7 stmts)")
     tasks += replay_all(run, recs2, inc2, {"harness_link": True}, nontrivial)
